@@ -95,6 +95,78 @@ def t_raise(cost, k):
 ''', [([1, 2], 0), ([1, 0], 3), ([None, 0], 3), ([4, 2], 1), ([4, None], 1), ([4, 2], 0), ([1, 2], -1)]),
 }
 
+# ---- glue extension (records, `raise`, tuple locals, ceil / floor / int, constructor returns): the options the
+# generator passes are part of the test.  name -> (parameters, source, inputs, options)
+GLUE_OPTIONS = {"exceptions": ("ValueError",), "constructors": {"Box": (3, (2,), "ValueError"), "Pair": 2},
+                "math_names": {"ceil": "ceil", "fl": "floor"}}
+REC = Param("cfg", "record", (('cfg["a"]["lo"]', "aLo", INT), ('cfg["m"][0]', "m0", INT), ("int(cfg.sizes['n'])", "n", INT)))
+GLUE_ACCEPTED = {
+    "g_record": ([REC, Param("w", INT)], '''
+def g_record(cfg, w):
+    """nested string-keyed subscripts and an `int(...)` atom of a record; raise; re-assignment under `if` without else;
+    a constructor that validates its last argument"""
+    lo = max(cfg["a"]["lo"] - cfg["m"][0], 0)
+    size = int(cfg.sizes["n"]) - lo
+    if lo >= w or size <= 0:
+        raise ValueError("outside")
+    if lo + size > w:
+        size = w - lo
+    return Box(lo, size, size - 2)
+''', [([1, 0, 5], 4), ([3, 1, 9], 4), ([5, 0, 9], 4), ([0, 2, 1], 7), ([-3, 1, 2], 1), ([1, 0, 2], 9)]),
+    "g_tuple": ([Param("self", "opaque"), Param("n", INT), Param("d", RAT)], '''
+def g_tuple(self, n, d):
+    """tuple locals read by literal subscripts, reassigned under if / else, ceil / floor / int, nested tuple return"""
+    p = (max(0 - d, 0), min(n - d, n))
+    q = (p[1], p[0])
+    if d < 0:
+        p = (int(ceil(p[0])), int(ceil(p[1])))
+    else:
+        p = (int(fl(p[0])), int(fl(p[-1])))
+    if p[1] <= p[0]:
+        return (0, 0), (int(q[0]), int(d * 2))
+    return p, (int(q[1]), int(d * 2))
+''', [(None, 5, 0), (None, 5, Fraction(3, 2)), (None, 5, Fraction(-3, 2)), (None, 4, Fraction(-1, 4)), (None, 4, 7),
+      (None, 3, Fraction(-7, 4)), (None, 0, Fraction(1, 4))]),
+    "g_swap": ([Param("a", INT), Param("b", INT)], '''
+def g_swap(a, b):
+    """a tuple display whose elements read components bound before them: all elements see the old values"""
+    p = (a, b)
+    p = (p[1], p[0] + p[1])
+    p = (p[1], p[0])
+    return Pair(p[0], p[1])
+''', [(1, 2), (-3, 5), (0, 0)]),
+}
+
+GLUE_REFUSED = {
+    "undeclared atom of a record": "def f(cfg, w):\n    return cfg['a']['hi']\n",
+    "record used whole": "def f(cfg, w):\n    x = cfg\n    return w\n",
+    "record sub-dict": "def f(cfg, w):\n    m = cfg['m']\n    return w\n",
+    "negative index into a record list": "def f(cfg, w):\n    return cfg['m'][-1]\n",
+    "undeclared exception": "def f(cfg, w):\n    if w > 0:\n        raise KeyError('x')\n    return w\n",
+    "raise with a computed message": "def f(cfg, w):\n    if w > 0:\n        raise ValueError(w)\n    return w\n",
+    "raise from": "def f(cfg, w):\n    if w > 0:\n        raise ValueError('x') from None\n    return w\n",
+    "bare raise": "def f(cfg, w):\n    if w > 0:\n        raise\n    return w\n",
+    "statement after raise": "def f(cfg, w):\n    raise ValueError('x')\n    return w\n",
+    "unknown constructor": "def f(cfg, w):\n    return Window(w, w)\n",
+    "constructor arity": "def f(cfg, w):\n    return Pair(w, w, w)\n",
+    "constructor keyword": "def f(cfg, w):\n    return Pair(w, b=w)\n",
+    "constructor inside an expression": "def f(cfg, w):\n    x = Pair(w, w)\n    return w\n",
+    "tuple local of varying length": "def f(cfg, w):\n    p = (w, w)\n    p = (w, w, w)\n    return p[0]\n",
+    "tuple local also scalar": "def f(cfg, w):\n    p = (w, w)\n    p = w\n    return p\n",
+    "tuple local used whole in an expression": "def f(cfg, w):\n    p = (w, w)\n    return p + p\n",
+    "tuple subscript out of range": "def f(cfg, w):\n    p = (w, w)\n    return p[2]\n",
+    "tuple subscript by a variable": "def f(cfg, w):\n    p = (w, w)\n    return p[w]\n",
+    "tuple one-sided": "def f(cfg, w):\n    if w > 0:\n        p = (w, w)\n    return p[0]\n",
+    "returns of different shapes": "def f(cfg, w):\n    p = (w, w)\n    if w > 0:\n        return p, w\n    return w, p\n",
+    "sqrt from math": "def f(cfg, w):\n    return sqrt(w)\n",
+    "ceil of a float that may be NaN": "def f(cfg, w, x):\n    return ceil(x)\n",
+    "int of a float that may be NaN": "def f(cfg, w, x):\n    return int(x)\n",
+    "int with a base": "def f(cfg, w):\n    return int(w, 10)\n",
+    "shadowed ceil": "def f(cfg, w):\n    ceil = 3\n    return w\n",
+    "shadowed int": "def f(cfg, w):\n    int = 3\n    return w\n",
+    "use of self": "def f(self, w):\n    return self.k + w\n",
+}
+
 REFUSED = {
     "for loop": "def f(x):\n    for i in range(3):\n        x = x + i\n    return x\n",
     "while": "def f(x):\n    while x > 0:\n        x = x - 1\n    return x\n",
@@ -140,9 +212,93 @@ def accepted_kernels():
     return out
 
 
+def glue_kernels():
+    out = {}
+    for name, (params, text, _) in GLUE_ACCEPTED.items():
+        out[name] = pyexpr.translate_function(function_of(text), name, params, source_text=text, **GLUE_OPTIONS)
+    return out
+
+
+def glue_refused_problems():
+    bad = []
+    for what, text in GLUE_REFUSED.items():
+        fn = function_of(text)
+        names = [a.arg for a in fn.args.args]
+        params = [Param("self", "opaque") if n == "self" else REC if n == "cfg" else Param(n, VAL if n == "x" else INT) for n in names]
+        try:
+            pyexpr.translate_function(fn, "f", params, source_text=text, **GLUE_OPTIONS)
+        except Unsupported:
+            continue
+        except Exception as exc:  # pylint: disable=broad-except
+            bad.append(f"glue / {what}: {type(exc).__name__} instead of Unsupported")
+            continue
+        bad.append(f"glue / {what}: accepted")
+    # without the options of the generator the glue constructs are refused as before
+    for name, (params, text, _) in GLUE_ACCEPTED.items():
+        if name == "g_swap":
+            continue
+        try:
+            pyexpr.translate_function(function_of(text), name, params, source_text=text)
+        except Unsupported:
+            continue
+        bad.append(f"glue / {name}: accepted without the generator's options")
+    return bad
+
+
+class _Cfg(dict):
+    """a record as CPython sees it in the glue self-test: a dict with a `.sizes` attribute"""
+
+
+def run_python_glue(text: str, name: str, params, args):
+    """CPython on the text of a glue test function: a record argument is rebuilt from the values of its atoms, the
+    constructors are plain tuples after their own validation"""
+    import math
+
+    def box(a, b, c):
+        if c < 0:
+            raise ValueError("Box: negative")
+        return ("Box", a, b, c)
+
+    env = {"ceil": math.ceil, "fl": math.floor, "Box": box, "Pair": lambda a, b: ("Pair", a, b)}
+    exec(compile(text, f"<selftest {name}>", "exec"), env)  # pylint: disable=exec-used
+    actual = []
+    for p, a in zip(params, args):
+        if p.kind == "record":
+            cfg = _Cfg({"a": {"lo": a[0]}, "m": [a[1]]})
+            cfg.sizes = {"n": a[2]}
+            actual.append(cfg)
+        elif p.kind == "opaque":
+            actual.append(None)
+        else:
+            actual.append(float(a) if p.kind == RAT else a)
+    try:
+        r = env[name](*actual)
+    except ValueError as exc:
+        return ("Box: ValueError" if str(exc).startswith("Box:") else "ValueError"), None
+
+    def flat(v):
+        if isinstance(v, tuple):
+            return [x for c in v if not isinstance(c, str) for x in flat(c)]
+        return [v]
+
+    return "ok", tuple(flat(r))
+
+
+def glue_python_problems():
+    bad = []
+    ks = glue_kernels()
+    for name, (params, text, inputs) in GLUE_ACCEPTED.items():
+        for args in inputs:
+            py = run_python_glue(text, name, params, args)
+            ev = pyexpr.evaluate(ks[name], *args)
+            if py[0] != ev[0] or (py[0] == "ok" and (list(py[1]) != list(ev[1]) or any(type(a) is not type(b) for a, b in zip(py[1], ev[1])))):
+                bad.append(f"glue / {name}{tuple(args)}: python {py} evaluator {ev}")
+    return bad
+
+
 def refused_problems():
     """names of the REFUSED functions the translator accepted"""
-    bad = []
+    bad = glue_refused_problems()
     for what, text in REFUSED.items():
         try:
             pyexpr.translate_function(function_of(text), "f", REFUSED_PARAMS, source_text=text)
@@ -202,7 +358,7 @@ def same(py, ev) -> bool:
 
 def python_problems():
     """inputs on which CPython and the translator's evaluator differ (must be empty)"""
-    bad = []
+    bad = glue_python_problems()
     ks = accepted_kernels()
     for name, (params, text, inputs) in ACCEPTED.items():
         for args in inputs:
